@@ -35,7 +35,11 @@ struct History
 	Alpha al; SharedDict sd; std::map<std::string, St> ids; std::string trace; int fresh = 0; bool failed = false; bool relatedNonEmpty = false;
 	template <class A> Obs observe(const A& x)
 	{
-		Obs o; o.a = fromDump(x.DumpToString(serializer()), ids); o.states = o.a.states(); return o;
+		// states: everything the dump names, also in its States line — a state without rules still occupies
+		// its number (UnionDisjointStates demands disjoint state sets, not merely disjoint rule sets)
+		std::string text = x.DumpToString(serializer()); Obs o; o.a = fromDump(text, ids); o.states = o.a.states();
+		auto d = parser().ParseString(text); for (auto& n : d.states) { auto it = ids.find(n); St v; if (it != ids.end()) v = it->second; else { v = ids.size(); ids[n] = v; } o.states.insert(v); }
+		return o;
 	}
 };
 
@@ -116,7 +120,7 @@ static void step(History& h, Pool<A>& p, vh::Rng& g, Pool<BDDTopDownTreeAut>* td
 		if (checkUseless && !h.failed)
 		{
 			std::set<St> u = rm::useful(o.a), prod = rm::productive(o.a);
-			for (St s : o.states) if (!u.count(s)) { fail(h, p, "useless/dead-state", "a state of the result takes part in no accepting run"); break; }
+			for (St s : o.a.states()) if (!u.count(s)) { fail(h, p, "useless/dead-state", "a state of the result takes part in no accepting run"); break; }
 			if (!h.failed) for (auto& rr : o.a.rules) { bool ok = u.count(rr.par) != 0; for (St c : rr.ch) if (!prod.count(c)) ok = false; if (!ok) { fail(h, p, "useless/dead-rule", ""); break; } }
 		}
 		if (!h.failed) post(what);
